@@ -33,6 +33,7 @@ def excName : Exc → String
   | .other 1 => "E1"
   | .other 2 => "E2"
   | .other 3 => "BE"
+  | .other 4 => "FE"
   | .other 9001 => "AssertionError"
   | .other 9002 => "InvalidState"
   | .other _ => "Other"
@@ -42,6 +43,7 @@ def parseExc (s : String) : Option Exc :=
   | "E1" => some (.other 1)
   | "E2" => some (.other 2)
   | "BE" => some (.other 3)
+  | "FE" => some (.other 4)
   | "Cancelled" => some (.cancelled 0)
   | "GenExit" => some .genExit
   | "SyncAbort" => some .syncAbort
